@@ -6,7 +6,7 @@ scratch copy of /repo (never /repo itself); the property's quick check is run ag
 import json, os, shutil, subprocess, sys, tempfile, time
 V = os.path.dirname(os.path.dirname(os.path.abspath(__file__)))
 cat = json.load(open(os.path.join(V, "mutants", "catalog.json")))
-args = sys.argv[1:]
+args = [a for a in sys.argv[1:] if a != "--survive"]
 tier = "quick"
 if "--thorough" in args:
     tier = "thorough"; args.remove("--thorough")
@@ -28,6 +28,15 @@ for m in sel:
             results[m["id"]] = "PATTERN-NOT-FOUND"
             print(m["id"], "PATTERN-NOT-FOUND"); continue
         open(p, "w").write(s.replace(m["old"], m["new"], 1))
+        if "--survive" in sys.argv or ("survives_repo_tests" not in m and m.get("tests")):
+            ge = dict(os.environ, GOFLAGS="-mod=mod", GOPROXY="off", GOSUMDB="off", GOTOOLCHAIN="local", PATH="/opt/veriftools/go1.26.8/bin:" + os.environ["PATH"])
+            rt = subprocess.run(["go", "test", "-vet=off", "-count=1"] + m.get("tests", ["./..."]), cwd=repo, env=ge, stdout=subprocess.PIPE, stderr=subprocess.STDOUT, text=True)
+            m["survives_repo_tests"] = rt.returncode == 0
+            print(m["id"], "repo tests:", "PASS (mutant survives)" if rt.returncode == 0 else "FAIL (killed by the suite): " + " ".join(l for l in rt.stdout.splitlines() if "FAIL" in l)[:200])
+            json.dump(cat, open(os.path.join(V, "mutants", "catalog.json"), "w"), indent=1)
+            if rt.returncode != 0:
+                results[m["id"]] = "KILLED-BY-SUITE"
+                continue
         env = dict(os.environ, VERIF_REPO=repo, VERIF_EVIDENCE_DIR=os.path.join(tmp, "ev"))
         t0 = time.time()
         r = subprocess.run([os.path.join(V, "check"), m["property"], tier], env=env, stdout=subprocess.PIPE, stderr=subprocess.STDOUT, text=True)
